@@ -265,8 +265,11 @@ def oracleC09 (o : OSt) (op : OpKind) (log : List String) (_cur : World) : Strin
 
 /-! ## C16 -/
 def oracleC16 (o : OSt) (op : OpKind) (log : List String) (cur : World) : String :=
+  -- judged on reconciles that read the live Suggestion: one that still sees a not-yet-succeeded cached copy may call the
+  -- algorithm once more (its status write is then rejected as a conflict)
   let rpcWhenSucceeded := match op with
-    | .recSug k _ =>
+    | .recSug _ false => false
+    | .recSug k true =>
       (match findSug o.prev k with
        | some s => sHas s .succeeded && log.any (fun l => l.startsWith "rpc.")
        | none => false)
